@@ -529,10 +529,29 @@ def _reference(real, ps, fns, steps):
         s2 = sim.apply(s, real.P.action(st[1]), real.params(st[2]))
         if simlib.REPLACE_DIRTY_SIM and real.dirty(sim):
             sim = real.fresh()
+        # "executable under the semantics of C01" means the DOCUMENTED semantics, not whatever the simulator does:
+        # each step is re-judged by the independent set-based successor (simlib.spec_outcomes, pyden evaluation)
+        try:
+            g = simlib._ground_real(real, st[1], st[2])
+            outcomes = [None] if g is None else simlib.spec_outcomes(ps, g[0], g[1], pre_maps[-1], fns)
+            got = None if s2 is None else real.state_map(s2)
+            if not any((got is None and o is None) or (got is not None and o is not None and got == o) for o in outcomes):
+                raise SemanticsMismatch(f"step {i} ({st[1]} {st[2]}): the simulator "
+                                        + ("rejects it" if got is None else "accepts it")
+                                        + ", the documented semantics says "
+                                        + ("inapplicable" if outcomes[0] is None else "applicable with another successor" if got is not None else "applicable"))
+        except SemanticsMismatch:
+            raise
+        except Exception:
+            pass
         if s2 is None:
             return i, False, pre_maps, None
         s = s2
     return None, bool(sim.is_goal(s)), pre_maps, real.state_map(s)
+
+
+class SemanticsMismatch(Exception):
+    pass
 
 
 def analyse(pl):
@@ -555,6 +574,10 @@ def analyse(pl):
             continue
         try:
             fail, goal, pre_maps, final_map = _reference(real, ps, fns, steps)
+        except SemanticsMismatch as e:
+            viol = viol or f"{e} in plan {sexp.dumps(plan)}"
+            tags.append(t | {"semantics-mismatch"})
+            continue
         except Exception as e:
             viol = viol or f"the real simulator raised {type(e).__name__} while executing {sexp.dumps(plan)}"
             tags.append(t | {"simulator-raised"})
